@@ -4,6 +4,7 @@ package mon
 import (
 	"fmt"
 	"math/rand/v2"
+	"strings"
 
 	"github.com/nlnwa/whatwg-url/url"
 
@@ -133,4 +134,45 @@ func interfere(ctx *core.Ctx, inputs ...string) {
 		}
 	}
 	ctx.Count("interference_passes")
+}
+
+// rawHostOf cuts the raw host text out of an absolute URL spelling (scheme://[userinfo@]host[:port]/...).
+func rawHostOf(in string) string {
+	i := strings.Index(in, "://")
+	if i < 0 {
+		return ""
+	}
+	rest := in[i+3:]
+	if j := strings.IndexAny(rest, "/\\?#"); j >= 0 {
+		rest = rest[:j]
+	}
+	if j := strings.LastIndex(rest, "@"); j >= 0 {
+		rest = rest[j+1:]
+	}
+	if !strings.HasPrefix(rest, "[") {
+		if j := strings.LastIndex(rest, ":"); j >= 0 {
+			rest = rest[:j]
+		}
+	}
+	return rest
+}
+
+// sameParserHistory: the SAME parser value first sees the same raw host text in a non-special
+// URL (and the same URL under a different special scheme) - a per-parser memo keyed by the
+// host text alone would now answer the checked call from the wrong entry.
+func sameParserHistory(ctx *core.Ctx, p url.Parser, in string) {
+	h := rawHostOf(in)
+	if h == "" {
+		return
+	}
+	for _, pre := range []string{"zz://" + h + "/", "ws://" + h + "/x"} {
+		_ = ctx.Call(len(pre)+64, func() {
+			if p == nil {
+				_, _ = url.Parse(pre)
+			} else {
+				_, _ = p.Parse(pre)
+			}
+		})
+	}
+	ctx.Count("same_parser_history_passes")
 }
